@@ -1,0 +1,50 @@
+//go:build verif && (verif_all || verif_c07)
+// +build verif
+// +build verif_all verif_c07
+
+package gocql
+
+// Verification hooks for C07 (frames are written whole), scheduling tier: an external harness drives the
+// real writers of a real connection over a transport whose Write it controls piece by piece.
+// Add-only; nothing here is reachable without the build tags.
+
+import (
+	"context"
+	"time"
+)
+
+// VerifManualCoalescer replaces the writer of an established connection by a writeCoalescer built exactly
+// like conn.go:init does (same socket, same write timeout, same quit channel) but whose flush timer is
+// fired by the returned function instead of by time: the flusher goroutine runs the real
+// writeFlusherImpl/flush, writers call the real writeCoalescer.writeContext. tick() reports false when the
+// flusher is not at its select (a flush is in progress or the connection has quit).
+// Must be called before the connection is used for requests.
+func VerifManualCoalescer(c *Conn) (tick func() bool) {
+	timerC := make(chan time.Time)
+	wc := &writeCoalescer{
+		writeCh: make(chan writeRequest),
+		c:       c.conn,
+		quit:    c.ctx.Done(),
+		timeout: c.writeTimeout,
+	}
+	go wc.writeFlusherImpl(timerC, func() {})
+	c.w = wc
+	return func() bool {
+		select {
+		case timerC <- time.Now():
+			return true
+		default:
+			return false
+		}
+	}
+}
+
+// VerifConnWriteTimeout reports the write timeout the connection's writer was built with.
+func VerifConnWriteTimeout(c *Conn) time.Duration { return c.writeTimeout }
+
+// VerifConnHeartbeat sends what Conn.heartBeat sends (an OPTIONS request through Conn.exec) and reports
+// whether a response frame came back.
+func VerifConnHeartbeat(ctx context.Context, c *Conn) error {
+	_, err := c.exec(ctx, &writeOptionsFrame{}, nil)
+	return err
+}
